@@ -1,5 +1,147 @@
-(* Proofs/Chunk.v -- C11: lemmas about the model of data.Chunk (Model/Chunk.v). *)
+(* Proofs/Chunk.v -- C11: lemmas about the model of data.Chunk (Model/Chunk.v).
+   Everything is about Model.Chunk.step / run, the definitions the correspondence run evaluates. *)
 From XMT Require Import Base.Prelude Base.BitLemmas Model.Codec Model.Chunk.
+From Coq Require Import ZifyBool.
+Ltac Zify.zify_post_hook ::= Z.div_mod_to_equations.
 
-Lemma clear_inv s : inv (clear s).
-Proof. unfold inv, clear; cbn. repeat split; auto; lia. Qed.
+(* ================================================================================================ *)
+(* 1. lists with Z indices                                                                          *)
+(* ================================================================================================ *)
+
+Lemma tk_len {A} k (l : list A) : 0 <= k <= len l -> len (take k l) = k.
+Proof. unfold len, take. intros. rewrite firstn_length. lia. Qed.
+Lemma tk_len_le {A} k (l : list A) : len (take k l) <= len l.
+Proof. unfold len, take. rewrite firstn_length. lia. Qed.
+Lemma dr_len {A} k (l : list A) : 0 <= k <= len l -> len (drop k l) = len l - k.
+Proof. unfold len, drop. intros. rewrite skipn_length. lia. Qed.
+Lemma tk_all {A} k (l : list A) : len l <= k -> take k l = l.
+Proof. unfold len, take. intros. apply firstn_all2. lia. Qed.
+Lemma tk_0 {A} k (l : list A) : k <= 0 -> take k l = [].
+Proof. unfold take. intros. replace (Z.to_nat k) with 0%nat by lia. reflexivity. Qed.
+Lemma dr_0 {A} k (l : list A) : k <= 0 -> drop k l = l.
+Proof. unfold drop. intros. replace (Z.to_nat k) with 0%nat by lia. reflexivity. Qed.
+Lemma dr_all {A} k (l : list A) : len l <= k -> drop k l = [].
+Proof. unfold len, drop. intros. apply skipn_all2. lia. Qed.
+Lemma tk_dr_id {A} k (l : list A) : take k l ++ drop k l = l.
+Proof. unfold take, drop. apply firstn_skipn. Qed.
+
+Lemma tk_app_l {A} k (a b : list A) : k <= len a -> take k (a ++ b) = take k a.
+Proof.
+  unfold len, take. intros. rewrite firstn_app.
+  replace (Z.to_nat k - length a)%nat with 0%nat by lia. cbn [firstn]. apply app_nil_r.
+Qed.
+Lemma tk_app_r {A} k (a b : list A) : len a <= k -> take k (a ++ b) = a ++ take (k - len a) b.
+Proof.
+  unfold len, take. intros. rewrite firstn_app. rewrite firstn_all2 by lia.
+  f_equal. f_equal. lia.
+Qed.
+Lemma tk_app_exact {A} k (a b : list A) : k = len a -> take k (a ++ b) = a.
+Proof. intros. rewrite tk_app_l by lia. apply tk_all. lia. Qed.
+Lemma dr_app_l {A} k (a b : list A) : k <= len a -> drop k (a ++ b) = drop k a ++ b.
+Proof.
+  unfold len, drop. intros. rewrite skipn_app.
+  replace (Z.to_nat k - length a)%nat with 0%nat by lia. reflexivity.
+Qed.
+Lemma dr_app_r {A} k (a b : list A) : len a <= k -> drop k (a ++ b) = drop (k - len a) b.
+Proof.
+  unfold len, drop. intros. rewrite skipn_app. rewrite skipn_all2 by lia.
+  cbn [app]. f_equal. lia.
+Qed.
+Lemma dr_app_exact {A} k (a b : list A) : k = len a -> drop k (a ++ b) = b.
+Proof. intros. rewrite dr_app_r by lia. apply dr_0. lia. Qed.
+
+Lemma tk_tk {A} a b (l : list A) : a <= b -> take a (take b l) = take a l.
+Proof.
+  unfold take. intros. rewrite firstn_firstn. f_equal. lia.
+Qed.
+Lemma skipn_skipn_nat {A} (x y : nat) : forall l : list A, skipn x (skipn y l) = skipn (y + x) l.
+Proof.
+  induction y as [|y IH]; intros l; [reflexivity|].
+  destruct l as [|h t]; [rewrite !skipn_nil; reflexivity|]. cbn [skipn Nat.add]. apply IH.
+Qed.
+Lemma dr_dr {A} a b (l : list A) : 0 <= a -> 0 <= b -> drop a (drop b l) = drop (a + b) l.
+Proof.
+  unfold drop. intros. rewrite skipn_skipn_nat. f_equal. lia.
+Qed.
+Lemma dr_tk {A} a b (l : list A) : 0 <= a <= b -> drop a (take b l) = take (b - a) (drop a l).
+Proof.
+  unfold take, drop. intros. rewrite skipn_firstn_comm. f_equal. lia.
+Qed.
+(* take b = take a, then the next b - a *)
+Lemma tk_split {A} a b (l : list A) : 0 <= a <= b -> take b l = take a l ++ take (b - a) (drop a l).
+Proof.
+  intros. rewrite <- (tk_dr_id a (take b l)). rewrite tk_tk by lia. rewrite dr_tk by lia. reflexivity.
+Qed.
+Lemma len_repeat {A} (x : A) n : len (repeat x n) = Z.of_nat n.
+Proof. unfold len. rewrite repeat_length. reflexivity. Qed.
+
+Lemma suffix_refl a : suffix_of a a.
+Proof. exists []. reflexivity. Qed.
+Lemma suffix_nil a : suffix_of [] a.
+Proof. exists a. symmetry. apply app_nil_r. Qed.
+Lemma suffix_trans a b c : suffix_of a b -> suffix_of b c -> suffix_of a c.
+Proof. intros [x Hx] [y Hy]. exists (y ++ x). subst. apply app_assoc. Qed.
+Lemma suffix_drop k l : suffix_of (drop k l) l.
+Proof. exists (take k l). symmetry. apply tk_dr_id. Qed.
+Lemma suffix_app a b : suffix_of b (a ++ b).
+Proof. exists a. reflexivity. Qed.
+
+(* byte lists *)
+Lemma bl_app a b : byte_list a -> byte_list b -> byte_list (a ++ b).
+Proof. unfold byte_list. intros. apply Forall_app. split; assumption. Qed.
+Lemma Forall_firstn_nat {A} (P : A -> Prop) n : forall l, Forall P l -> Forall P (firstn n l).
+Proof.
+  induction n as [|n IH]; intros l H; [constructor|].
+  destruct H; cbn [firstn]; constructor; auto.
+Qed.
+Lemma Forall_skipn_nat {A} (P : A -> Prop) n : forall l, Forall P l -> Forall P (skipn n l).
+Proof.
+  induction n as [|n IH]; intros l H; [exact H|].
+  destruct H; cbn [skipn]; [constructor | auto].
+Qed.
+Lemma bl_take k l : byte_list l -> byte_list (take k l).
+Proof. apply Forall_firstn_nat. Qed.
+Lemma bl_drop k l : byte_list l -> byte_list (drop k l).
+Proof. apply Forall_skipn_nat. Qed.
+Lemma bl_zeros n : byte_list (repeat 0 n).
+Proof. unfold byte_list. rewrite Forall_forall. intros x Hx. apply repeat_spec in Hx. lia. Qed.
+Lemma bl_nil : byte_list [].
+Proof. constructor. Qed.
+Lemma bl_u8 x : 0 <= u8 x < 256.
+Proof. unfold u8. lia. Qed.
+
+Lemma of_be_nonneg l : forall acc, byte_list l -> 0 <= acc -> 0 <= of_be l acc.
+Proof.
+  induction l as [|b r IH]; intros acc H Ha; cbn [of_be]; [exact Ha|].
+  inversion H; subst. apply IH; [assumption | lia].
+Qed.
+
+(* ---- overwrite ---------------------------------------------------------------------------------- *)
+Lemma ow_len m i d : 0 <= i -> i + len d <= len m -> len (overwrite m i d) = len m.
+Proof.
+  intros. pose proof (len_nonneg d). unfold overwrite. rewrite !len_app, tk_len, dr_len by lia. lia.
+Qed.
+Lemma ow_take_lo m i d j : j <= i -> 0 <= i <= len m -> take j (overwrite m i d) = take j m.
+Proof.
+  intros. unfold overwrite. rewrite tk_app_l by (rewrite tk_len by lia; lia). apply tk_tk. lia.
+Qed.
+Lemma ow_take_hi m i d : 0 <= i <= len m -> take (i + len d) (overwrite m i d) = take i m ++ d.
+Proof.
+  intros. unfold overwrite. rewrite tk_app_r by (rewrite tk_len by lia; lia).
+  rewrite tk_len by lia. f_equal. apply tk_app_exact. lia.
+Qed.
+Lemma ow_end m i d : 0 <= i -> i + len d = len m -> overwrite m i d = take i m ++ d.
+Proof.
+  intros. unfold overwrite. rewrite dr_all by lia. rewrite app_nil_r. reflexivity.
+Qed.
+(* storing below the length commutes with cutting at the length *)
+Lemma ow_take_comm m i d k : 0 <= i -> i + len d <= k -> k <= len m ->
+  take k (overwrite m i d) = overwrite (take k m) i d.
+Proof.
+  intros. pose proof (len_nonneg d). unfold overwrite.
+  rewrite tk_app_r by (rewrite tk_len by lia; lia). rewrite tk_len by lia.
+  rewrite tk_app_r by lia. rewrite tk_tk by lia. rewrite dr_tk by lia.
+  do 3 f_equal. lia.
+Qed.
+Lemma bl_overwrite m i d : byte_list m -> byte_list d -> byte_list (overwrite m i d).
+Proof. intros. unfold overwrite. apply bl_app; [apply bl_take; assumption|]. apply bl_app; [assumption | apply bl_drop; assumption]. Qed.
